@@ -67,6 +67,8 @@ def instances(tier):
         out.append({"name": f"summary_traditional_{dist}", "func": "run_summary", "kwargs": {"kind": "traditional", "dist": dist}})
     out.append({"name": "summary_azimuthal_lognormal", "func": "run_summary", "kwargs": {"kind": "azimuthal", "dist": "lognormal"}})
     out.append({"name": "pre_and_post_rejection", "func": "run_prepost", "kwargs": {}})
+    for kind in ("traditional", "azimuthal"):
+        out.append({"name": f"panel_{kind}_replot_after_mask_change", "func": "run_panel", "kwargs": {"kind": kind, "opt": "default", "dist": "lognormal", "replot": True}})
     out.append({"name": "pre_and_post_rejection_panel_content", "func": "run_prepost_content", "kwargs": {}})
     out.append({"name": "azimuthal_mesh", "func": "run_mesh", "kwargs": {}})
     out.append({"name": "recordings_plot", "func": "run_records", "kwargs": {}})
@@ -179,7 +181,7 @@ def usable(status_list, kind):
     return sum(1 for s in status_list[0] if s == "accepted") >= 2
 
 
-def run_panel(rep, tier, kind, opt, dist):
+def run_panel(rep, tier, kind, opt, dist, replot=False):
     PP_ = L()["postprocessing"]
     Rec = loader.AxesRecorder
 
@@ -187,6 +189,20 @@ def run_panel(rep, tier, kind, opt, dist):
         obj, inner, status = mk_obj(ctx, kind)
         if kind != "diffuse" and not usable(status, kind):
             return None
+        prior = [list(st) for st in status] if replot else None
+        if replot:
+            # the same live object drawn once, its accept masks changed (solver-chosen, counts may stay the same), drawn again
+            try:
+                PP_.plot_single_panel_hvsr_curves(obj, distribution_mc=dist, distribution_fn=dist, ax=Rec("ax0", []), **OPTIONS[opt])
+            except ValueError:
+                pass
+            for k, (h, st) in enumerate(zip(inner, status)):
+                for i, s0 in enumerate(st):
+                    if s0 != "nopeak":
+                        st[i] = ["accepted", "rejected"][ctx.choose(2, tag=f"re{k}_{i}")]
+                        h.valid_window_boolean_mask[i] = h.valid_peak_boolean_mask[i] = (st[i] == "accepted")
+            if not usable(status, kind):
+                return None
         before = snapshot(obj, inner)
         log = []
         ax = Rec("ax", log)
@@ -204,13 +220,14 @@ def run_panel(rep, tier, kind, opt, dist):
                 stats["mcp"] = obj.mean_curve_peak(dist)
             except ValueError:
                 stats["mcp"] = None
-        return obj, inner, status, before, after, log, err, stats
+        return obj, inner, status, before, after, log, err, stats, prior
 
     for ctx, res in rep.explore(run, max_paths=400 if tier == "quick" else 3000, timeout_ms=5000):
         if res is None:
             continue
-        obj, inner, status, before, after, log, err, stats = res
-        W = state_witness(inner, status, dist, f"panel:{kind}:{opt}")
+        obj, inner, status, before, after, log, err, stats, prior = res
+        W0 = state_witness(inner, status, dist, f"panel:{kind}:{opt}")
+        W = (lambda m, W0=W0, prior=prior: dict(W0(m), prior_status=prior)) if replot else W0
         rep.obligations += 1
         diff = same_snapshot(before, after)
         if diff is None:
@@ -613,6 +630,20 @@ def replay(spec):
         obj = _mk_real(spec)
         inner = [obj]
     dist = spec["dist"]
+    if spec.get("prior_status"):
+        # the object was drawn once under earlier accept masks
+        for h, st in zip(inner, spec["prior_status"]):
+            for i, s_ in enumerate(st):
+                h.valid_window_boolean_mask[i] = h.valid_peak_boolean_mask[i] = (s_ == "accepted")
+        try:
+            fig0, ax0 = plt.subplots()
+            hvsrpy.plot_single_panel_hvsr_curves(obj, distribution_mc=dist, distribution_fn=dist, ax=ax0)
+        except Exception:   # noqa
+            pass
+        plt.close("all")
+        for h, st in zip(inner, spec["status"]):
+            for i, s_ in enumerate(st):
+                h.valid_window_boolean_mask[i] = h.valid_peak_boolean_mask[i] = (s_ == "accepted")
     snap = [(h.amplitude.copy(), h.valid_window_boolean_mask.copy(), h.valid_peak_boolean_mask.copy(), h._main_peak_frq.copy()) for h in inner]
     try:
         if what.startswith("summary"):
